@@ -49,6 +49,7 @@ class Profile:
         self.branches = True
         self.unsized_literals = True
         self.unsized_symbols = False   # C02 only: width inferred from symbol values
+        self.unsized_params = True     # unsized operands that use a macro parameter / a scaled loop variable (width differs per expansion)
         self.shadowing = False         # C02/C08: small name pool, inner redefinitions
         self.param_named_consts = False  # C09: call-site names equal to parameter names
         self.self_pointers = True
@@ -81,7 +82,9 @@ class GS:
         self.xc: dict[str, int] = {}      # `:=` constants defined so far -> value
         self.consts: list[str] = []       # every constant name defined in this scope (duplicate avoidance)
         self.inline_names: set[str] = set()  # names defined in .if branches written in this scope (same assembler scope)
+        self.refs: set[str] = set()          # constant names already referenced from this scope or below it
         self.params: list[str] = []
+        self.wide: str | None = None      # macro parameter used in unsized operands (arguments of several width classes)
         self.loopvar: tuple | None = None
 
 
@@ -120,12 +123,22 @@ class ProgGen:
             real = gs
             while real.kind == "ifbranch" and real.parent is not None:
                 real = real.parent
-            taken = set(gs.consts) | set(real.consts) | real.inline_names
+            # a constant must not be (re)defined in a scope after something in that scope already referred to the
+            # outer constant of the same name ("= / := constants are not referenced before their definition")
+            taken = set(gs.consts) | set(real.consts) | real.inline_names | gs.refs | real.refs
             cand = [n for n in pool if n not in taken]
             if cand:
                 return self.rng.choice(cand)
         self.n_const += 1
         return f"k_{self.n_const}"
+
+    def _note_ref(self, gs: GS, t) -> None:
+        names = [n for n in X.idents(t) if n.startswith(("kx_", "ke_"))]
+        if names:
+            s_ = gs
+            while s_ is not None:
+                s_.refs.update(names)
+                s_ = s_.parent
 
     def _note_inline(self, gs: GS, name: str) -> None:
         s_ = gs
@@ -244,12 +257,16 @@ class ProgGen:
             gs = GS(self.root, "macro")
             gs.params = params
             code_params = [q for q in params if self.p.code_args and rng.random() < 0.25]
-            m = {"n": name, "ps": params, "code_ps": code_params, "gs": gs, "rec": False}
+            m = {"n": name, "ps": params, "code_ps": code_params, "gs": gs, "rec": False, "wide": None}
+            plain = [q for q in params if q not in code_params]
+            if self.p.unsized_params and plain and rng.random() < 0.5:
+                m["wide"] = rng.choice(plain)
+                gs.wide = m["wide"]
             saved = self.budget
             self.budget = rng.randint(2, 5)
             m["b"] = self.skeleton(gs, self.budget, 1, in_macro=True, allow_calls=list(self.macros))
             self.budget = saved
-            if self.p.recursion and params and params[0] not in code_params and rng.random() < 0.3:
+            if self.p.recursion and params and params[0] not in code_params and m["wide"] != params[0] and rng.random() < 0.3:
                 m["rec"] = True
             self.macros.append(m)
             defs.append(m)
@@ -299,6 +316,12 @@ class ProgGen:
         return ["lit", v, rng.choice(["d", "x", "x", "X", "b"])]
 
     def value_expr(self, gs: GS, allow_labels=True, allow_eq=True, params=True, depth=0):
+        t = self._value_expr(gs, allow_labels, allow_eq, params, depth)
+        if depth == 0 and self.p.shadowing:
+            self._note_ref(gs, t)
+        return t
+
+    def _value_expr(self, gs: GS, allow_labels=True, allow_eq=True, params=True, depth=0):
         """an expression over names visible in gs (layout-time allowed)"""
         rng = self.rng
         atoms = []
@@ -328,11 +351,17 @@ class ProgGen:
             elif op == "&":
                 rhs = ["lit", rng.choice([0xFF, 0xFFFF, 0xFF00, 0xFFFFFF]), "x"]
             else:
-                rhs = self.value_expr(gs, allow_labels, allow_eq, params, depth + 1) if rng.random() < 0.3 else self.lit(0, 300)
+                rhs = self._value_expr(gs, allow_labels, allow_eq, params, depth + 1) if rng.random() < 0.3 else self.lit(0, 300)
             return ["bin", op, base, rhs]
         return base
 
     def x_expr(self, gs: GS, small=False):
+        t, v = self._x_expr(gs, small)
+        if self.p.shadowing:
+            self._note_ref(gs, t)
+        return t, v
+
+    def _x_expr(self, gs: GS, small=False):
         """expansion-time expression (literals, := constants, loop variables) and its value"""
         rng = self.rng
         vals = dict(self.visible_x(gs))
@@ -365,6 +394,20 @@ class ProgGen:
             if near:
                 return {"k": "ins", "m": rng.choice(["bra", "bne", "beq", "bcc", "bcs", "bmi", "bpl"]), "shape": ["", None, None], "sfx": "",
                         "e": ["id", rng.choice(near)]}
+        if self.p.unsized_params:
+            s_, wide, lv = gs, None, None
+            while s_ is not None:
+                wide = wide or s_.wide
+                lv = lv or s_.loopvar
+                s_ = s_.parent
+            if wide and rng.random() < 0.3:
+                # the width of this instruction differs from one application to the next
+                m_ = rng.choice(sup["allw"])
+                return {"k": "ins", "m": m_, "shape": ["", None, None], "sfx": "", "e": ["id", wide]}
+            if lv and rng.random() < 0.15:
+                m_ = rng.choice(sup["allw"])
+                e = ["bin", "*", ["id", lv[0]], ["lit", rng.choice([0x40, 0x80, 0x4000, 0x8000]), "x"]]
+                return {"k": "ins", "m": m_, "shape": ["", None, None], "sfx": "", "e": e}
         k = rng.random()
         if self.p.unsized_symbols and rng.random() < 0.12:
             # any mnemonic / shape with an unsized operand of ANY magnitude: the cell for the inferred width may not
@@ -490,6 +533,9 @@ class ProgGen:
                 args.append({"code": code})
             elif m.get("rec") and q == m["ps"][0]:
                 args.append(["lit", rng.randint(0, 3), "d"])
+            elif q == m.get("wide") and rng.random() < (0.6 if self.p.unsized_symbols else 0.9):
+                lo, hi = rng.choice([(0, 0xFF), (0x100, 0xFFFF), (0x10000, 0xFFFFFF)])
+                args.append(self.lit(lo, hi))
             else:
                 k = rng.random()
                 if self.p.param_named_consts and k < 0.35:
